@@ -235,12 +235,16 @@ inductive In where
   | submit (t : Nat) (p : Producer)
   | wait (t id : Nat) (cancel : Bool)
   | shutdown (t : Nat)             -- `asyncio.run` shutting down: the daemon task is cancelled
+  | fclear (t : Nat)               -- a foreign thread's `_put`, first half: `self.event.clear()`
+  | fput (t : Nat) (p : Producer)  -- … second half, on the loop: the scheduled `q.put_nowait(producer)`
   deriving Repr
 
 def In.time : In → Nat
   | .submit t _ => t
   | .wait t _ _ => t
   | .shutdown t => t
+  | .fclear t => t
+  | .fput t _ => t
 
 /-- Phase codes reported with a shutdown: 1 idle, 2 loading, 3 timer armed (`await _getting`),
 4 loading a captured producer, 5 function running. -/
@@ -304,6 +308,18 @@ def applyIn (s : St) (i : In) : St :=
     let w : Waiter := { id := id, cancel := cancel, before := s.submitted.length }
     if s.unfinished = 0 then passJoin s w else { s with joiners := s.joiners ++ [w] }
   | .shutdown _ => cancelDaemon (settle fuelDefault s)
+  | .fclear _ => { s with event := false }
+  | .fput _ p =>
+    -- as `submit`, but the flag was cleared earlier, by the other thread (it may have been set again since)
+    let s := { s with unfinished := s.unfinished + 1, submitted := s.submitted ++ pitems p }
+    if s.pc = Pc.idle then { s with queue := s.queue ++ [p] }
+    else match s.getting with
+      | some g =>
+        if g.state = GState.pending then
+          { s with getting := some { g with state := .got, captured := p },
+                   pc := if s.pc = Pc.awaitget then Pc.decide else s.pc }
+        else { s with queue := s.queue ++ [p] }
+      | none => { s with queue := s.queue ++ [p] }
 
 def horizon : Nat := 1000000000
 
